@@ -129,6 +129,7 @@ class Interp:
         self.fresh = itertools.count()
         self.unsupported_log = []
         self.executed = {}                 # qualname -> FuncVal of every repository function interpreted
+        self.havocs = []                   # (id, fresh symbols, loc) for opaque values stored into numeric arrays
         from . import npmodel
         self.np = npmodel.NumpyModel(self)
 
@@ -851,11 +852,26 @@ class Interp:
         if isinstance(a, (E, int, float, IntSym)) and isinstance(b, (E, int, float, IntSym)) \
                 and not isinstance(a, bool) and not isinstance(b, bool):
             return self.select_scalar(c, cell(a), cell(b))
+        if isinstance(a, dict) and isinstance(b, dict) and set(a) == set(b):
+            tgt = orig if isinstance(orig, dict) else {}
+            for k in a:
+                tgt[k] = self.select_value(c, a[k], b[k], orig.get(k) if isinstance(orig, dict) else None, node)
+            return tgt
+        if isinstance(a, list) and isinstance(b, list) and len(a) == len(b):
+            vals = [self.select_value(c, x, y, orig[i] if isinstance(orig, list) and len(orig) == len(a) else None, node) for i, (x, y) in enumerate(zip(a, b))]
+            if isinstance(orig, list) and len(orig) == len(a):
+                orig[:] = vals
+                return orig
+            return vals
         if keyof(a) == keyof(b):
             return a
         return self.opaque("join of non-numeric values under a symbolic condition", node)
 
     def select_scalar(self, c, a, b):
+        if a is UNINIT:
+            a = alg.sym("<uninit>")
+        if b is UNINIT:
+            b = alg.sym("<uninit>")
         if isinstance(a, E) and isinstance(b, E):
             if a == b:
                 return a
@@ -961,6 +977,17 @@ class Interp:
             if isinstance(v, (list, tuple)):
                 v = mkarr(list(v))
             idx = self.concrete_index(idx, node)
+            if isinstance(v, Opaque) and base.dtype == object:
+                # havoc: an unmodelled value stored into a numeric array becomes fresh, unconstrained symbols
+                tgt = base[idx]
+                k = next(self.fresh)
+                if isinstance(tgt, np.ndarray):
+                    v = np.empty(tgt.shape, dtype=object)
+                    for j, i in enumerate(np.ndindex(*tgt.shape)):
+                        v[i] = alg.sym(f"havoc{k}[{j}]")
+                else:
+                    v = alg.sym(f"havoc{k}")
+                self.havocs.append((k, v if not isinstance(v, np.ndarray) else v.copy(), self.loc(node, env)))
             self.emit("store", (id(base), keyof(idx) if not isinstance(idx, slice) else str(idx)), node, env)
             try:
                 base[idx] = v
@@ -1412,6 +1439,8 @@ class Interp:
     def subscript(self, base, idx, n=None):
         if isinstance(base, Opaque):
             return base
+        if isinstance(idx, Opaque) or (isinstance(idx, tuple) and any(isinstance(i, Opaque) for i in idx)):
+            return self.opaque("subscript with a data-dependent (opaque) index", n)
         if isinstance(idx, SymIdx) and isinstance(base, (np.ndarray, SymArr)):
             return SymArr("take", (base if isinstance(base, SymArr) else base, idx))
         if isinstance(base, SymArr):
